@@ -169,6 +169,20 @@ def run_positive(schema):
         ck2.root_of_trust()
     except Exception as e:  # noqa
         return [(f'C13|positive|{type(e).__name__}@{tb_where(e)}', f'error-free schema rejected: {e!r}; schema:\n{text}')]
+    # a compiled model is the caller's object: wrecking it must not affect the next compilation of the same text
+    try:
+        first = compile_lvs(text)
+        first.version = 0xFFFF
+        if first.nodes:
+            first.nodes[0].parent = 7
+            del first.nodes[1:]
+        again = compile_lvs(text)
+        Checker(again, FNS)
+        if bytes(again.encode()) != bytes(ck.save()):
+            return [('C13|positive|second-compilation-differs', f'compiling the same text again gives another model; schema:\n{text}')]
+    except Exception as e:  # noqa
+        return [(f'C13|positive|second-compilation|{type(e).__name__}@{tb_where(e)}',
+                 f'after the caller modified the first compiled model, compiling the same error-free text again fails: {e!r}; schema:\n{text}')]
     return []
 
 
